@@ -255,7 +255,41 @@ def _truthy_fact(facts: List[Fact], text: str) -> bool:
     return False
 
 
+INT_MAX_DIGITS = 4300  # sys.int_info.default_max_str_digits: int() raises ValueError beyond it
+
+
+def _len_upper_bound(facts: List[Fact], text: str):
+    best = None
+    for f in facts:
+        n = f.node
+        if isinstance(n, ast.Compare) and len(n.ops) == 1:
+            for a, b, flip in ((n.left, n.comparators[0], False), (n.comparators[0], n.left, True)):
+                if isinstance(a, ast.Call) and dotted(a.func) == "len" and len(a.args) == 1 and _int(b) is not None \
+                        and expand(a.args[0], f.func, f.defs) == text:
+                    c = _int(b)
+                    o = type(n.ops[0])
+                    if flip:
+                        o = {ast.Lt: ast.Gt, ast.Gt: ast.Lt, ast.LtE: ast.GtE, ast.GtE: ast.LtE}.get(o, o)
+                    ub = None
+                    if o is ast.Lt:
+                        ub = c - 1 if f.truth else None
+                    elif o is ast.LtE:
+                        ub = c if f.truth else None
+                    elif o is ast.Eq:
+                        ub = c if f.truth else None
+                    elif o is ast.Gt:
+                        ub = c if not f.truth else None
+                    elif o is ast.GtE:
+                        ub = c - 1 if not f.truth else None
+                    if ub is not None:
+                        best = ub if best is None else min(best, ub)
+    return best
+
+
 def _digit_fact(facts: List[Fact], evs, text: str) -> bool:
+    ub = _len_upper_bound(facts, text)
+    if ub is None or ub > INT_MAX_DIGITS:
+        return False  # int() also fails on more than 4300 digits
     for f in facts:
         n = f.node
         if f.truth and isinstance(n, ast.Call) and isinstance(n.func, ast.Attribute) and n.func.attr in ("isdigit", "isdecimal", "isnumeric") \
@@ -386,7 +420,12 @@ def _digit_arg(arg, func, defs=None) -> bool:
     if pat is None:
         return False
     groups = regex_groups(pat)
-    return 0 <= idx < len(groups) and group_is_digits(groups[idx])
+    if not (0 <= idx < len(groups) and group_is_digits(groups[idx])):
+        return False
+    # the repeat must be bounded: int() raises ValueError beyond 4300 digits
+    items = list(groups[idx])
+    lo, hi, _ = items[0][1]
+    return isinstance(hi, int) and hi <= INT_MAX_DIGITS
 
 
 def partial_op_obligations(ctx, rep, rule: str, funcs: List[Tuple[object, object]], kinds=None):
@@ -500,6 +539,8 @@ def check(ctx, rep):
     rep.rule("R03b", "request-tainted partial operations (index, unpack, int(), next(), urlparse, match.group, e.args[k]) are guarded", floor=25)
     rep.rule("R03c", "handler lookup never falls through silently", floor=1)
     rep.rule("R03d", "history independence: persistent writes are exactly the two cache files; module-level state is only lazily initialised from configuration, never mutated per request", floor=2)
+    rep.rule("R03f", "the stat performed on a still unfiltered selector catches ValueError (embedded NUL) as well as OSError", floor=2)
+    rep.rule("R03g", "status lines echo request text only after line breaks were collapsed", floor=2)
     rep.rule("R03e", "mailbox constructors (fail with mailbox.Error, not OSError) are guarded or converted", floor=2)
     rep.assume("served content (gophermaps, link files, mailboxes, archives) is well formed: partial operations on file content are not tracked")
 
@@ -607,6 +648,33 @@ def check(ctx, rep):
 
     shared_state_obligations(ctx, rep, "R03d", eff, request_functions(ctx, eff), sequential=True)
 
+    pregate_stat_obligations(ctx, rep, "R03f", eff)
+
+    # ------------------------------------------------------------------ R03g
+    for P in ctx.protocol_classes():
+        ws = P.methods.get("write_status")
+        if ws is None:
+            continue
+        meta = ws.params[2] if len(ws.params) > 2 else "meta"
+        writes = [n for n in ast.walk(ws.node) if isinstance(n, ast.Call) and isinstance(n.func, ast.Attribute) and n.func.attr == "write"]
+        problems = []
+        uses_meta = any(isinstance(x, ast.Name) and x.id == meta for w_ in writes for x in ast.walk(w_))
+        if uses_meta:
+            collapsed = False
+            for n in ast.walk(ws.node):
+                if isinstance(n, ast.Assign) and any(isinstance(tg, ast.Name) and tg.id == meta for tg in n.targets) and _collapses_lines(n.value, meta):
+                    # the collapse must come before the write
+                    if all(n.lineno < w_.lineno for w_ in writes):
+                        collapsed = True
+            for w_ in writes:
+                for x in ast.walk(w_):
+                    if _collapses_lines(x, meta):
+                        collapsed = True
+            if not collapsed:
+                problems.append(f"the status line interpolates `{meta}` (error texts echo the percent-decoded selector) without removing CR/LF: "
+                                "a request such as /a%0Ab breaks the one-line status into two")
+        rep.add("R03g", f"{ws.qualname}: one-line status", not problems, ctx.where(ws), "; ".join(problems), key=f"R03g|{ws.qualname}")
+
     # ------------------------------------------------------------------ R03e
     for H in ctx.handler_classes():
         for m in H.methods.values():
@@ -640,6 +708,76 @@ def check(ctx, rep):
                             "" if ok else "raises mailbox.NoSuchMailboxError (not an OSError) when the mailbox does not exist; "
                             "nothing converts it into a not-found reply and canhandlerequest does not check existence",
                             key=f"R03e|{m.qualname}|{norm(call.func)}")
+
+
+def pregate_stat_obligations(ctx, rep, rule, eff):
+    """VFS calls made on a selector no filter has seen yet (multiplexer prologue, handler
+    constructors): must catch ValueError (embedded NUL) besides OSError."""
+    prog = ctx.prog
+    gh = ctx.func("handlers.HandlerMultiplexer.getHandler")
+    pre = []
+    if gh is not None:
+        pre.append((gh, None))
+    seen_pre = set()
+    for H in ctx.handler_classes():
+        init = prog.resolve_method(H, "__init__")
+        work = [init] if init is not None else []
+        while work:
+            m = work.pop()
+            if (m, H) in seen_pre:
+                continue
+            seen_pre.add((m, H))
+            pre.append((m, H))
+            for call, t in eff.calls_of(m, H):
+                if t.kind == "repo" and (t.bound_cls is not None or (call.args and dotted(call.args[0]) == "self")):
+                    work.extend(t.funcs)
+    done_calls = set()
+    for m, H in pre:
+        for call, t in eff.calls_of(m, H):
+            if id(call) in done_calls:
+                continue
+            is_stat = eff.is_vfs_call(t) and t.funcs[0].name in ("stat", "isdir", "isfile", "exists", "listdir", "open")
+            if not is_stat:
+                continue
+            done_calls.add(id(call))
+            tries = enclosing_tries(m.node, call)
+            need = ["OSError", "ValueError"] if t.funcs[0].name in ("stat", "listdir", "open") else ["ValueError"]
+            missing = [e for e in need if not any(catches(hd, e) for tr in tries for hd in tr.handlers)]
+            rep.add(rule, f"{m.qualname}: {norm(call)[:50]}", not missing, ctx.where(m, call),
+                    f"runs on a selector no filter has seen yet and does not catch {missing}: a selector containing a NUL byte makes os.stat raise "
+                    "ValueError, which escapes and leaves the client without a reply" if missing else "", key=f"{rule}|{m.qualname}|{norm(call.func)}")
+
+
+
+def _collapses_lines(expr, name) -> bool:
+    """Does `expr` compute `name` with every CR/LF removed or replaced?"""
+    import re as _re
+
+    if isinstance(expr, ast.Call):
+        d = dotted(expr.func) or ""
+        if d in ("re.sub",) and len(expr.args) >= 3 and isinstance(expr.args[0], ast.Constant) and isinstance(expr.args[1], ast.Constant) \
+                and any(isinstance(x, ast.Name) and x.id == name for x in ast.walk(expr.args[2])):
+            try:
+                rx = _re.compile(expr.args[0].value)
+            except Exception:
+                return False
+            rep_ = str(expr.args[1].value)
+            return all(rx.fullmatch(c) or rx.sub("", c) == "" for c in ("\r", "\n")) and "\n" not in rep_ and "\r" not in rep_
+        if isinstance(expr.func, ast.Attribute) and expr.func.attr == "replace" and len(expr.args) == 2:
+            # name.replace("\r", x).replace("\n", y)
+            seen = set()
+            cur = expr
+            while isinstance(cur, ast.Call) and isinstance(cur.func, ast.Attribute) and cur.func.attr == "replace" and len(cur.args) == 2:
+                if isinstance(cur.args[0], ast.Constant) and isinstance(cur.args[1], ast.Constant) and "\n" not in str(cur.args[1].value) and "\r" not in str(cur.args[1].value):
+                    seen.add(cur.args[0].value)
+                cur = cur.func.value
+            return isinstance(cur, ast.Name) and cur.id == name and {"\r", "\n"} <= seen
+        if isinstance(expr.func, ast.Attribute) and expr.func.attr == "join" and isinstance(expr.func.value, ast.Constant) \
+                and "\n" not in str(expr.func.value.value) and "\r" not in str(expr.func.value.value) and expr.args:
+            a = expr.args[0]
+            return isinstance(a, ast.Call) and isinstance(a.func, ast.Attribute) and a.func.attr in ("splitlines", "split") \
+                and isinstance(a.func.value, ast.Name) and a.func.value.id == name and (a.func.attr == "splitlines" or not a.args)
+    return False
 
 
 def _existence_checked(ctx, prog, H) -> bool:
